@@ -28,6 +28,6 @@ impl Scenario for C07 {
     }
 
     fn expected_probes(&self) -> Vec<&'static str> {
-        vec!["c07_sealing_key_changes", "c07_freshness_windows_checked", "fault_drop", "fault_dup", "fault_reorder", "fault_delay"]
+        vec!["c07_sealing_key_changes", "c07_long_lifetimes", "c07_freshness_windows_checked", "fault_drop", "fault_dup", "fault_reorder", "fault_delay"]
     }
 }
